@@ -28,12 +28,12 @@ def run(ctx):
     if missing:
         raise D.Inconclusive("functions of the implementation's table without a case: %s" % sorted(missing))
     by_id = {o["id"]: o for o in obs}
-    keys = [(o["cs"]["kind"], o["cs"]["op"], o["cs"]["name"], o["cs"]["n"], o["cs"]["side"], o["cs"]["pos"]) for o in obs]
+    keys = [(o["cs"]["kind"], o["cs"]["op"], o["cs"]["name"], o["cs"]["n"], o["cs"]["side"], o["cs"]["pos"], o["cs"]["rcv"]) for o in obs]
     ctx.extra["functions_in_table"] = len(table)
     return D.finish(ctx, verdicts, by_id, evaluations=len(obs),
                     rule="exhaustive: every binary/unary operator x operand position x {literal {}, absent path, empty variable}; every name of the "
                          "implementation's base and experimental tables x every arity Compile accepts (0..4) with the input empty, and every "
-                         "single-value argument position empty; distinct = (operator or function, arity, position)",
+                         "single-value argument position empty (several receivers per function, several partner operands per operator; the variable form compiles once and evaluates first with a non-empty then with the empty binding); distinct = (operator or function, arity, position, receiver)",
                     nontrivial_keys=keys, samples=[{"src": o["src"], "out": o["out"]} for o in obs[:: max(1, len(obs) // 6)]],
                     exhaustive=True,
                     assumptions=["function names and arities are read from the implementation's own table at run time; argument fillers and the aggregate / not-implemented classification come from the specification"])
